@@ -1,13 +1,19 @@
 """Translator for C03: the tables of txdbus/message.py that the message model is parameterised by.
 
-Runtime objects: `_protocolVersion`, `endian`, every message class's `_messageType` and `_maxMsgLen` (pinned by the
-test suite; per class: a subclass value is honoured by `_marshal`).
-Private tables (`_headerFormat`, `_mtype`, `_hcode`, the classes' `_headerAttrs`): found through PUBLIC BEHAVIOUR
-(harness/c03_probe.py: header signature = the module-level string under which a constructed message's bytes decode and
-re-encode; class per type code = parseMessage of a minimal message of each type byte; attribute per field code =
-parseMessage of a message carrying each code; header rows = `_headerAttrs` or the header of a message built with every
-keyword).  The private names are the fast path and are cross-checked against the probe when they exist; when one is
-gone the probe answers and a sentence goes to `ADVISORIES`.
+Runtime objects read directly: every message class's `_messageType` (pinned by the test suite; CROSS-CHECKED here
+against byte 1 of a message of the class constructed through the public constructor) and `_maxMsgLen` (pinned by
+tests/test_message.py::test_too_long; NOT cross-checked here - building a 128 MiB message per run is left to the
+`real-limit` stream of the thorough tier and, for subclass values, to the harness's `limit_honoured` probe).
+`_protocolVersion`, `endian`: read from the bytes of a constructed message, cross-checked with the attributes.
+Private tables (`_headerFormat`, `_mtype`, `_hcode`): found through PUBLIC BEHAVIOUR (harness/c03_probe.py: header
+signature = the string under which a constructed message's bytes decode and re-encode; class per type code =
+parseMessage of a VALID minimal message of each type byte; attribute per field code = parseMessage of a valid message
+carrying each code with the specification's type).  The private names are the fast path and are cross-checked against
+the probe when they exist; when one is gone the probe answers and a sentence goes to `ADVISORIES`; when the name exists
+but the probe cannot decide (parseMessage refuses the carrier), the name answers and a sentence goes to `ADVISORIES`.
+The classes' `_headerAttrs`: read AS THEY ARE when present (not cross-checked by the translator: the `build` stream
+compares every header byte with the model built from them); probed from a re-marshalled object when the name is gone
+(the `required` column is then written False; the model does not use it).
 Alignments: PROBED from the `marshal.pad` dict that the codec actually calls (`pad[c](n)` for n < 64; also
 `pad['header']`) and cross-checked with the alignment column of `marshal.dbus_types`.
 Three values that are code rather than tables are taken from the AST when it has the familiar shape and
@@ -142,6 +148,18 @@ def probe_reserved_paths(message, marshal, tree):
     return out
 
 
+def _probe_instance(message, pyname):
+    if pyname == 'MethodCallMessage':
+        return message.MethodCallMessage('/a', 'm')
+    if pyname == 'MethodReturnMessage':
+        return message.MethodReturnMessage(1)
+    if pyname == 'ErrorMessage':
+        return message.ErrorMessage('a.E', 1)
+    if pyname == 'SignalMessage':
+        return message.SignalMessage('/a', 'm', 'a.b')
+    return None
+
+
 def tables(message, marshal):
     from harness import c03_probe as P
     t = {}
@@ -151,6 +169,8 @@ def tables(message, marshal):
         classes_by_type = P.class_by_type(message, marshal, fmt, ADVISORIES)
     except P.ProbeError as e:
         raise TranslatorError(str(e))
+    except Exception as e:                   # the probe must not be what falls over: name the table, keep the cause
+        raise TranslatorError('probing message.py\'s header tables (_headerFormat / _hcode / _mtype) failed: %r' % (e,))
     t['headerFormat'] = fmt
     base = message.DBusMessage
     t['maxMsgLen'] = nat(base._maxMsgLen, '_maxMsgLen')
@@ -195,6 +215,18 @@ def tables(message, marshal):
             rows = P.header_attrs(message, marshal, fmt, pyname, fields_by_code, ADVISORIES)
         except P.ProbeError as e:
             raise TranslatorError(str(e))
+        except Exception as e:
+            raise TranslatorError('probing %s._headerAttrs failed: %r' % (pyname, e))
+        # `_messageType` against behaviour: byte 1 of a message of the class built through the public constructor
+        try:
+            made = _keeping_counter(message, lambda k=k, pyname=pyname: _probe_instance(message, pyname))
+            if made is not None and made.rawMessage[1] != k._messageType:
+                raise TranslatorError('%s._messageType = %r, but a constructed %s carries type byte %r'
+                                      % (pyname, k._messageType, pyname, made.rawMessage[1]))
+        except TranslatorError:
+            raise
+        except Exception as e:
+            ADVISORIES.append('%s._messageType could not be cross-checked against a constructed message: %r' % (pyname, e))
         t['classes'].append((pyname, lean, nat(k._messageType, pyname + '._messageType'),
                              [entry(tuple(e), pyname + '._headerAttrs') for e in rows],
                              nat(k._maxMsgLen, pyname + '._maxMsgLen')))
